@@ -28,7 +28,7 @@ from values import *
 
 SHORT = list(range(0, 32))
 LONG_QUICK = list(range(32, 66)) + [79, 80, 81, 95, 96, 97, 127, 128, 129, 255, 256, 257]
-LONG_THOROUGH = list(range(32, 260)) + [511, 512, 513, 1000, 1023, 1024, 1025]
+LONG_THOROUGH = list(range(32, 130)) + [255, 256, 257, 511, 512, 513, 1000, 1023, 1024, 1025]
 
 
 _F = {}
